@@ -860,7 +860,8 @@ fn probe_driver(dir: &str, step: usize, k: usize, text: &str, heap_mb: u64) -> R
         let cso = CString::new(so.clone()).unwrap();
         let h = libc::dlopen(cso.as_ptr(), libc::RTLD_NOW | libc::RTLD_LOCAL);
         if h.is_null() {
-            return Err(format!("dlopen {so} failed"));
+            // (e.g. no `main` in the text that was handed out: the shim's reference stays undefined)
+            return Ok(Some("cannot be loaded: the text handed out is not a complete driver".into()));
         }
         let sym = |n: &str| -> *mut c_void {
             let c = CString::new(n).unwrap();
